@@ -1,10 +1,12 @@
 #!/venv/bin/python
-"""usage: tools/seeded_import.py <name> <property> <initially: caught|missed> "<caught by / strengthening note>"
-Copies /tmp/seeded_out/<name>/{patch.diff,demo.py,notes.md} to /verif/seeded/<name>/ and writes meta.json."""
+"""usage: tools/seeded_import.py <name> <property> <initially: caught|missed> "<caught by / strengthening note>" [<source dir> [<round>]]
+Copies <source dir or /tmp/seeded_out/<name>>/{patch.diff,demo.py,notes.md} to /verif/seeded/<name>/ and writes meta.json."""
 import json, os, shutil, sys
 
 name, prop, initially, note = sys.argv[1:5]
-src, dst = f"/tmp/seeded_out/{name}", f"/verif/seeded/{name}"
+src = sys.argv[5] if len(sys.argv) > 5 else f"/tmp/seeded_out/{name}"
+rnd = int(sys.argv[6]) if len(sys.argv) > 6 else 1
+dst = f"/verif/seeded/{name}"
 os.makedirs(dst, exist_ok=True)
 for f in ("patch.diff", "demo.py", "notes.md"):
     shutil.copy(os.path.join(src, f), os.path.join(dst, f))
@@ -13,6 +15,7 @@ title = notes.splitlines()[0].lstrip("# ").strip()
 needs = next((ln.strip("- ").strip() for ln in notes.splitlines() if ln.strip("- ").lower().startswith("needs")), "")
 meta = {
     "property": prop,
+    "round": rnd,
     "title": title,
     "needs_to_manifest": needs,
     "origin": "written by a fresh sub-agent that saw only the property text and its own scratch worktree of /repo",
